@@ -151,17 +151,18 @@ PROPS["C20"] = dict(
 )
 
 PROPS["C11"] = dict(
-    pkg="props/c11", level="fault_enumeration", engine="E-pos", design_ref="§4 C11",
-    technique="PBT-generated merge inputs (rapid) x exhaustive single-fault injection at every iterator and writer position (+ sampled double faults)",
-    rule=("evaluation = one run of Merge / MergeCompact(latest-wins) / MergeCompact(skip-tombstones) over 1..5 generated overlapping inputs with one injected fault: input i fails at "
-          "its j-th Next (every i, every j incl. the call that would return Done; one-shot and sticky) or the writer fails at its p-th WriteNext (every p; one-shot and sticky), plus up to 6 "
-          "generated double faults per case; oracle: fault fired => a non-nil error (or a panic); no fault fired => nil; non-trivial = the fault fired before the last output record was written; "
-          "distinct = (case hash, fault position)"),
-    level_text="Every single fault position of every generated merge is enumerated; the oracle is exact ('fault fired implies error').",
-    level_note="interface leg only in this revision: faults are injected through the iterator and writer interfaces the merger accepts",
-    assumptions=COMMON_ASSUME,
-    require_labels=["kind=merge", "kind=compact-latest", "kind=compact-skip"],
-    quick=dict(shards=16, checks=60),
+    pkg="props/c11", level="fault_enumeration", engine="E-pos", design_ref="§4 C11", aux_builds=RUNNER_AUX,
+    technique="PBT-generated merge inputs (rapid) x exhaustive single-fault injection at every iterator and writer position (+ sampled double faults); system leg: failing table writers inside flush/compaction of a child process",
+    rule=("interface leg (5 of 6 cases): one run of Merge / MergeCompact(latest-wins) / MergeCompact(skip-tombstones) over 1..5 generated overlapping inputs per injected fault: input i fails at its j-th Next (every i, every j incl. the "
+          "call that would return Done; one-shot and sticky) or the writer fails at its p-th WriteNext (every p; one-shot and sticky), plus up to 6 generated double faults; oracle: fault fired => a non-nil error (or a panic), no fault "
+          "fired => nil. System leg (1 of 6): a generated simpledb program runs in a child process in which the data or index writer of the f-th flush / c-th compaction fails at record position p (verif-tag writer-open hook, failure "
+          "model of the repository's failingRecordIoWriter); the child may stop or continue, afterwards the parent opens the directory without faults and its content must equal the map of the acknowledged operations. "
+          "non-trivial = the fault fired before the last output record was written (interface) / the fault was armed and the child stopped or an operation returned an error (system); distinct = (case hash, fault position)"),
+    level_text="Every single fault position of every generated merge is enumerated with an exact oracle; the system leg samples fault positions inside real flushes and compactions.",
+    level_note="system-leg faults are whole-call failures of the table's recordio writers (not failing write(2) calls): the code calls os.* directly, so system-call-level fault injection would need ptrace control that strace cannot give per process-wide call number",
+    assumptions=COMMON_ASSUME + ["hooks: sstables.VerifSetWriterOpenHook / VerifWrapWriters (tag verif)"],
+    require_labels=["kind=merge", "kind=compact-latest", "kind=compact-skip", "leg=system", "fault-armed", "child-stopped"],
+    quick=dict(shards=16, checks=60, shrink_s=5),
     thorough=dict(shards=16, checks=1500, timeout_s=3600),
 )
 
@@ -229,16 +230,17 @@ PROPS["C06"] = dict(
 )
 
 PROPS["C17"] = dict(
-    pkg="props/c17", level="exploration", engine="E-model", design_ref="§4 C17",
-    technique="differential + model-based PBT (rapid): the same abstract program through the string and the byte API on two fresh databases; map oracle at every observation point",
-    rule=("case = 1..40 steps Put/Delete/Get/rotate+flush/restart over keys incl. nil, empty, non-UTF-8 and 300-byte keys and values incl. nil, empty, 1..300 bytes and 64 KiB, executed once through "
-          "Put/Delete/Get and once through PutBytes/DeleteBytes/GetBytes; oracle: (a) same error class and value per step in both flavours, (b) empty/nil key or value => error, (c) a call that returned "
-          "an error leaves the whole universe equal to the map, observed directly after every write, after rotate+flush and after a clean restart; non-trivial = a rejected call followed by an accepted "
-          "write, a flush and a restart; distinct = distinct case JSON"),
-    level_text="Differential and reference-map oracles over generated programs mixing rejected and accepted calls (in-process leg; crash images after rejected calls are added by the E-crash engine).",
-    level_note="the string flavour cannot express nil, so nil is mapped to the empty string there",
-    assumptions=COMMON_ASSUME + ["hooks: simpledb.VerifRotate / VerifWaitFlushIdle (tag verif)"],
-    require_labels=["rejected-call"],
+    pkg="props/c17", level="exploration", engine="E-model", design_ref="§4 C17", aux_builds=RUNNER_AUX,
+    technique="differential + model-based PBT (rapid): the same abstract program through the string and the byte API; map oracle at every observation point; crash images after rejected calls via the E-crash engine",
+    rule=("case = 1..40 steps Put/Delete/Get/rotate+flush/restart over keys incl. nil, empty, non-UTF-8 and 300-byte keys and values incl. nil, empty, 1..300 bytes and 64 KiB. In-process leg (14 of 15 cases): executed once through "
+          "Put/Delete/Get and once through PutBytes/DeleteBytes/GetBytes; oracle: (a) same accept/reject/not-found outcome and value per step in both flavours, (b) empty/nil key or value => error, (c) a call that returned an error "
+          "leaves the whole universe equal to the map, observed directly after every write, after rotate+flush and after a clean restart. Crash leg (1 of 15, <=16 steps): the byte-API program runs in the child runner under strace and "
+          "every system-call boundary (in particular those after a rejected call) must recover to the map of the acknowledged calls (C02 oracle). non-trivial = a rejected call followed by an accepted write, a flush and a restart "
+          "(in-process) / a boundary inside a multi-call protocol (crash leg); distinct = case JSON / (case hash, boundary)"),
+    level_text="Differential and reference-map oracles over generated programs mixing rejected and accepted calls, at all four observation points the property names.",
+    level_note="the string flavour cannot express nil, so nil is mapped to the empty string there; which error value a flavour uses to reject is not asserted",
+    assumptions=CRASH_ASSUME + ["hooks: simpledb.VerifRotate / VerifWaitFlushIdle (tag verif)"],
+    require_labels=["rejected-call", "leg=crash", "crash-images-after-a-rejected-call"],
     quick=dict(shards=16, checks=60, shrink_s=5),
     thorough=dict(shards=16, checks=2000, timeout_s=5400),
 )
